@@ -333,6 +333,8 @@ def offset_table_corpus(ctx):
     import grid
     from allmydata.mutable.publish import MutableData
     from allmydata.interfaces import SDMF_VERSION
+    from allmydata.mutable.common import MODE_READ
+    rd_lines, rd_impls, rd_cases = [], [], []
     with grid.Runtime(seed=5) as rt:
         g = grid.Grid(grid.fresh_dir("c10o"), rt, num_servers=2, k=1, happy=1, n=2)
         try:
@@ -357,7 +359,29 @@ def offset_table_corpus(ctx):
                                       dict(case, got=val), sig)
                     ctx.case(repr(sorted(case.items())))
                     ctx.count("offset-corpus:" + st)
+                    if pos % 2 == 0:
+                        # the same history on the model: verinfo identities = ranks of the real verinfo tuples of a real
+                        # map update; is the altered share readable at all = a read with the other share taken away
+                        sm = rt.wait(fresh_node(c, node.get_readonly_uri()).get_servermap(MODE_READ))
+                        vm = sm.make_versionmap()
+                        ranks = {v: r for r, v in enumerate(sorted(vm.keys()))}
+                        others = [(pp, open(pp, "rb").read()) for (_i2, _s2, pp) in g.share_files(node.get_storage_index()) if pp != p]
+                        for (pp, _r) in others:
+                            os.unlink(pp)
+                        st_alone, _v = try_read(rt, fresh_node(c, node.get_readonly_uri()))
+                        for (pp, rr) in others:
+                            open(pp, "wb").write(rr)
+                        toks = sorted((shn, _share_tok(shn, 0 if shn == sh else 1, 1, 1, 1, ranks[v], True if shn != sh else st_alone == "ok"))
+                                      for v, shs in vm.items() for (shn, _srv, _t) in shs)
+                        line = "rd t 1 %s / %s" % (" ".join(t for _s, t in toks), " ".join(t for _s, t in toks))
+                        rd_lines.append(line)
+                        rd_impls.append("ok" if st == "ok" else "fail")
+                        rd_cases.append(dict(case, model_line=line))
                 open(p, "wb").write(raw)
+            mo = ctx.model(rd_lines)
+            if mo is not None:
+                ctx.compare("download_best_version on a map with an offset-altered share (version selection + retry)", rd_cases, rd_impls,
+                            ["fail" if o == "fail" else ("ok" if "," in o else o) for o in mo])
         finally:
             g.close()
 
@@ -771,6 +795,222 @@ def prefix_alteration_family(ctx, rounds):
                                          "policy": policy, "size": k * ctx.rng.choice([3, 10, 21]), "trials": trials})
 
 
+# ----------------------------------------------------------------------------- several shares on one server
+
+def shared_server_scenario(ctx, prm):
+    """Fewer servers than shares, so servers hold several shares each.  Some shares are damaged (one bit
+    in the block data / a hash chain; prefix and signature intact, so they enter the servermap); at least
+    k other shares stay intact, some of them on the servers that also hold a damaged one.  The statement:
+    k intact shares of the newest version are reachable, so the read succeeds."""
+    import grid
+    from allmydata.mutable.publish import MutableData
+    from allmydata.interfaces import SDMF_VERSION, MDMF_VERSION
+    fmt = SDMF_VERSION if prm["fmt"] == "SDMF" else MDMF_VERSION
+    k, n, ns = prm["k"], prm["n"], prm["servers"]
+    with grid.Runtime(seed=prm["seed"], policy=prm["policy"]) as rt:
+        g = grid.Grid(grid.fresh_dir("c10m"), rt, num_servers=ns, k=k, happy=1, n=n)
+        try:
+            c = g.clients[0]
+            content = b"the only version, shares doubled up on servers. " * 2
+            node = rt.wait(c.create_mutable_file(MutableData(content), version=fmt))
+            files = g.share_files(node.get_storage_index())
+            where = {sh: i for (i, sh, _p) in files}
+            paths = {sh: p for (_i, sh, p) in files}
+            if sorted(paths) != list(range(n)):
+                ctx.count("shared-server:placement-incomplete")
+                return
+            pristine = {sh: open(p, "rb").read() for sh, p in paths.items()}
+            for ti, tr in enumerate(prm["trials"]):
+                for sh, p in paths.items():
+                    raw = pristine[sh]
+                    if sh in tr["damaged"]:
+                        (a, b) = share_fields(raw[DATA_OFFSET:])[tr["field"]]
+                        if b > a:
+                            pos = DATA_OFFSET + a + tr["pos"] % (b - a)
+                            raw = raw[:pos] + bytes([raw[pos] ^ 0x04]) + raw[pos + 1:]
+                    with open(p, "wb") as fh:
+                        fh.write(raw)
+                st, val = try_read(rt, fresh_node(c, node.get_readonly_uri()))
+                intact = [sh for sh in range(n) if sh not in tr["damaged"]]
+                # the class of the input: does a server hold both a damaged share and an intact one?
+                mixed = sorted({where[d] for d in tr["damaged"]} & {where[s] for s in intact})
+                case = {"family": "shared-server", "params": dict(prm, trials=prm["trials"][:ti + 1]), "fmt": prm["fmt"], "k": k, "n": n,
+                        "servers": ns, "placement": {str(sh): where[sh] for sh in sorted(where)}, "damaged": tr["damaged"],
+                        "field": tr["field"], "intact": len(intact), "result": st}
+                if st == "ok" and val != content:
+                    ctx.violation("read returned bytes that no version ever published", dict(case, got=val.hex()[:80]),
+                                  "unpublished-bytes:shared-server")
+                elif st == "stuck":
+                    ctx.violation("read never completed", case, "read-stuck:shared-server")
+                elif len(intact) >= k and st != "ok":
+                    sig = "newest-not-returned:shared-server"
+                    if mixed and "NotEnoughSharesError" in str(val):
+                        sig = "newest-not-returned:bad-share-drops-server"
+                    ctx.violation("k intact shares of the newest version were reachable but the read failed",
+                                  dict(case, got=val, servers_with_damaged_and_intact=mixed), sig)
+                ctx.case(repr((prm["fmt"], k, n, ns, prm["seed"], prm["policy"], ti, tuple(tr["damaged"]), tr["field"])))
+                ctx.count("shared-server:%s:%s:%s" % (prm["fmt"], "mixed" if mixed else "apart", st))
+        finally:
+            g.close()
+
+
+def shared_server_family(ctx, rounds):
+    corpus = [{"fmt": "SDMF", "k": 2, "n": 3, "servers": 2, "seed": 1, "policy": "fifo",
+               "trials": [{"damaged": [0], "field": "share_data", "pos": 0}, {"damaged": [1], "field": "share_data", "pos": 0},
+                          {"damaged": [2], "field": "share_data", "pos": 0}]}]
+    for prm in corpus:
+        shared_server_scenario(ctx, prm)
+    combos = [(f, p) for p in ("random", "fifo", "lifo") for f in ("SDMF", "MDMF")]
+    for r in range(rounds):
+        fmt, policy = combos[r % len(combos)]
+        k, n, ns = ctx.rng.choice([(2, 3, 2), (3, 4, 2), (3, 6, 2), (2, 4, 3), (3, 5, 2), (2, 5, 3), (3, 6, 4)])
+        trials = []
+        for _ in range(5):
+            cnt = ctx.rng.randrange(1, n - k + 1)
+            trials.append({"damaged": sorted(ctx.rng.sample(range(n), cnt)),
+                           "field": ctx.rng.choice(["share_data", "share_data", "block_hash_tree", "share_hash_chain"]),
+                           "pos": ctx.rng.randrange(1 << 16)})
+        shared_server_scenario(ctx, {"fmt": fmt, "k": k, "n": n, "servers": ns, "seed": ctx.rng.randrange(1 << 30),
+                                     "policy": policy, "trials": trials})
+
+
+# ----------------------------------------------------------------------------- version selection and the Retrieve loop vs the model
+
+def _share_tok(sh, srv, seq, root, pre, offs, good):
+    return "%d:%d:%d:%d:%d:%d:%s" % (sh, srv, seq, root, pre, offs, "g" if good else "b")
+
+
+def _verinfo(seq, root, pre, offs, k, n):
+    return (seq, b"%032d" % root, b"i" * 16, 4, 4, k, n, b"prefix %d" % pre, (("signature", 100 + offs), ("EOF", 900)))
+
+
+def versionmap_cases(ctx, count):
+    """Real ServerMap.best_recoverable_version / recoverable_versions on synthetic verinfo tuples."""
+    from allmydata.mutable.servermap import ServerMap
+    lines, impls, cases = [], [], []
+    for c in range(count):
+        k = ctx.rng.randrange(1, 4)
+        n = ctx.rng.randrange(k, k + 4)
+        nver = ctx.rng.randrange(1, 4)
+        vers = [(ctx.rng.randrange(1, 4), ctx.rng.randrange(2), ctx.rng.randrange(2), ctx.rng.randrange(3)) for _ in range(nver)]
+        servers = [_StubServer(i) for i in range(5)]
+        sm = ServerMap()
+        toks = []
+        for sh in range(n):
+            for srv in ctx.rng.sample(range(5), ctx.rng.choice([0, 1, 1, 1, 2])):
+                v = ctx.rng.choice(vers)
+                sm.add_new_share(servers[srv], sh, _verinfo(*v, k=k, n=n), 0.0)
+                toks.append(_share_tok(sh, srv, *v, True))
+        back = {_verinfo(*v, k=k, n=n): "%d,%d,%d,%d" % v for v in vers}
+        b = sm.best_recoverable_version()
+        recs = sorted(sm.recoverable_versions())
+        impl = "%s | %s" % (back[b] if b is not None else "-", " ".join(back[r] for r in recs) or "-")
+        lines.append("vm %d %s" % (k, " ".join(toks)))
+        impls.append(impl)
+        cases.append({"k": k, "shares": toks})
+        ctx.case(lines[-1] if len(recs) > 1 else None)
+        ctx.count("versionmap:recoverable=%d" % len(recs))
+    ctx.compare("ServerMap.best_recoverable_version / recoverable_versions", cases, impls, ctx.model(lines))
+
+
+def run_retrieve_loop_impl(k, shares):
+    """shares: [(shnum, server, good)] sorted by shnum.  The real Retrieve (stub node/servers, real
+    ServerMap and _setup_download) driven as loop()/_process_segment drive it: _activate_enough_servers,
+    then every newly active reader through _validate_block with _handle_bad_share as errback, until a
+    round passes without a rejection (ok) or NotEnoughSharesError (fail)."""
+    from twisted.python.failure import Failure
+    from allmydata import hashtree
+    from allmydata.util import hashutil
+    from allmydata.interfaces import NotEnoughSharesError
+    from allmydata.mutable.retrieve import Retrieve
+    from allmydata.mutable.servermap import ServerMap
+    n = max(k, max(sh for (sh, _s, _g) in shares) + 1)
+    block = {i: b"genuine share %d" % i for i in range(n)}
+    tree = hashtree.HashTree([hashutil.block_hash(block[i]) for i in range(n)])
+    verinfo = (1, tree[0], b"i" * 16, 4 * k, 4 * k, k, n, b"the signed prefix", ())
+    sm = ServerMap()
+    servers = {}
+    for (sh, srv, _g) in shares:
+        servers.setdefault(srv, _StubServer(srv))
+        sm.add_new_share(servers[srv], sh, verinfo, 0.0)
+    good = {sh: g for (sh, _s, g) in shares}
+    r = Retrieve(_StubNode(), None, sm, verinfo)
+    r._offset, r._read_length = 0, 4 * k
+    r._setup_encoding_parameters()
+    try:
+        r._setup_download()
+    except NotEnoughSharesError:
+        return "fail"
+    validated = set()
+    for _round in range(len(shares) + 2):
+        try:
+            r._activate_enough_servers()
+        except NotEnoughSharesError:
+            return "fail"
+        rejected = False
+        for reader in list(r._active_readers):
+            sh = reader.shnum
+            if sh in validated:
+                continue
+            blk = block[sh] if good[sh] else b"damaged block"
+            sharehashes = {i: tree[i] for i in tree.needed_hashes(sh)} if r.share_hash_tree.needed_hashes(sh) else {}
+            box = []
+            d = r._validate_block(((blk, b"i" * 16), [hashutil.block_hash(blk)], sharehashes), 0, reader, reader.server, 0.0)
+            d.addErrback(r._handle_bad_share, [reader])
+            d.addBoth(box.append)
+            if isinstance(box[0], Failure):
+                box[0].raiseException()
+            if box[0] is None:
+                rejected = True
+            else:
+                validated.add(sh)
+        if not rejected:
+            return "ok:%s" % (",".join(str(x.shnum) for x in r._active_readers) or "-")
+    return "no-progress"
+
+
+def retrieve_loop_cases(ctx, count):
+    import grid
+    lines, impls, cases = [], [], []
+    corpus = [(2, [(0, 0, False), (1, 1, True), (2, 0, True)])]
+    with grid.Runtime(seed=0):
+        # which bad-share handling does this tree have?  (as it is: the server goes; with fixes/C10-bad-share-drops-server.diff: the share goes)
+        variant = "f" if run_retrieve_loop_impl(*corpus[0]) == "ok:1,2" else "t"
+        ctx.count("retrieve-loop:variant=" + variant)
+        for c in range(count + len(corpus)):
+            if c < len(corpus):
+                k, shares = corpus[c]
+            else:
+                k = ctx.rng.randrange(1, 4)
+                n = ctx.rng.randrange(k, k + 5)
+                ns = ctx.rng.randrange(1, n + 1)
+                present = sorted(ctx.rng.sample(range(n), ctx.rng.randrange(max(1, k - 1), n + 1)))
+                shares = [(sh, ctx.rng.randrange(ns), ctx.rng.random() < 0.65) for sh in present]
+            impl = run_retrieve_loop_impl(k, shares)
+            toks = " ".join(_share_tok(sh, srv, 1, 1, 1, 0, g) for (sh, srv, g) in shares)
+            lines.append("rl %s %d %s" % (variant, k, toks))
+            impls.append(impl)
+            lines.append("rl %s %d %s" % ("f" if variant == "t" else "t", k, toks))     # the other variant: counted, not compared
+            impls.append(None)
+            case = {"k": k, "shares": shares, "variant": variant}
+            cases += [case, case]
+            ngood = sum(1 for s in shares if s[2])
+            one_per_server = len({s[1] for s in shares}) == len(shares)
+            # the statement on the real loop: k good shares in the map => it must end with k good shares
+            if ngood >= k and not impl.startswith("ok"):
+                sig = "newest-not-returned:retrieve-loop" if one_per_server else "newest-not-returned:bad-share-drops-server"
+                ctx.violation("the Retrieve loop gave up although k good shares were in its sharemap", dict(case, got=impl), sig)
+            ctx.case(lines[-2] if any(not s[2] for s in shares) else None)
+            ctx.count("retrieve-loop:" + impl.split(":")[0])
+    mo = ctx.model(lines)
+    if mo is not None:
+        keep = [i for i in range(len(lines)) if impls[i] is not None]
+        ctx.compare("Retrieve share-selection loop (_activate_enough_servers / _mark_bad_share)", [cases[i] for i in keep],
+                    [impls[i] for i in keep], [mo[i] for i in keep])
+        differ = sum(1 for i in range(0, len(lines), 2) if mo[i] != mo[i + 1])
+        ctx.count("retrieve-loop:variants-differ", differ)
+
+
 def run(ctx):
     import common
     common.setup_impl_path()
@@ -778,13 +1018,19 @@ def run(ctx):
     if rc.get("family") == "consistent-forgery":
         forgery_scenario(ctx, rc["params"])
         return
+    if rc.get("family") == "shared-server":
+        shared_server_scenario(ctx, rc["params"])
+        return
     if rc.get("family") == "prefix-alteration":
         prefix_alteration_scenario(ctx, rc["params"])
         return
     offset_table_corpus(ctx)
     consistent_forgery_family(ctx, ctx.budget(12, 240))
     retrieve_tree_cases(ctx, ctx.budget(300, 20000))
+    versionmap_cases(ctx, ctx.budget(300, 20000))
+    retrieve_loop_cases(ctx, ctx.budget(300, 20000))
     prefix_alteration_family(ctx, ctx.budget(6, 120))
+    shared_server_family(ctx, ctx.budget(6, 120))
     single_share_cases(ctx, ctx.budget(3, 60))
     damaged_share_among_few_servers(ctx, ctx.budget(14, 200))
     campaign(ctx, ctx.budget(8, 300))
